@@ -256,5 +256,14 @@ example : (newDigest B 64 []).isSome = true := by decide
 example : (newDigest S 32 [1, 2, 3]).isSome = true := by decide
 example : (newDigest B 0 []).isSome = false := by decide
 example : (newDigest B 65 []).isSome = false := by decide
+/-- an instance of `history_spec`: a keyed BLAKE2b-256 with a Write, Sum, Reset, Sum history -/
+example : ∃ d0, newDigest B 32 [1, 2, 3] = some d0 ∧
+    run d0 [.write [9], .sum, .reset, .sum] =
+      [blake2Spec B 32 [1, 2, 3] [9], blake2Spec B 32 [1, 2, 3] []] := by
+  have h : (newDigest B 32 [1, 2, 3]).isSome = true := by decide
+  obtain ⟨d0, hd⟩ := Option.isSome_iff_exists.mp h
+  refine ⟨d0, hd, ?_⟩
+  rw [history_spec B_laws 32 [1, 2, 3] d0 hd]
+  simp [specRun]
 
 end XC.C05
